@@ -216,6 +216,13 @@ func c14Seeds(rng *rand.Rand) map[string][][]byte {
 			add("varfile", b)
 		}
 	}
+	// what the library itself writes for a list that never received an entry (SignatureSize 0)
+	for _, t := range []util.EFIGUID{signature.CERT_X509_GUID, signature.CERT_SHA256_GUID} {
+		add("sigdb", signature.NewSignatureList(t).Bytes())
+		l := signature.NewSignatureList(t)
+		l.AppendBytes(util.EFIGUID{Data1: 1}, bytes.Repeat([]byte{7}, 32))
+		add("sigdb", append(l.Bytes(), signature.NewSignatureList(t).Bytes()...))
+	}
 	add("utf16", util.MarshalUtf16Var("Linux Boot Manager"))
 	add("utf16", util.MarshalUtf16Var("\U0001F600 x"))
 	add("guid", []byte("8be4df61-93ca-11d2-aa0d-00e098032b8c"))
